@@ -272,6 +272,9 @@ pub fn lang_products() -> Vec<(String, String, String)> {
             res.push((l.clone(), s.clone(), r.clone()));
             if l != "und" { res.push((String::new(), s.clone(), r.clone())); }
         } }
+        // the two-subtag forms as well: a language with a related script but no row of its own for the pair (tk-Arab)
+        for s in ss.iter() { res.push((l.clone(), s.clone(), String::new())); }
+        for r in rs.iter() { res.push((l.clone(), String::new(), r.clone())); }
     }
     res.sort(); res.dedup();
     res
